@@ -63,6 +63,9 @@ def main(tier):
         for key, verdict in r.get("pure", {}).items():
             if verdict != "ok":
                 ck.violation(f"AWQ {key.split('/')[0]} on a 4-bit matrix held as {key.split('/')[1]}: {verdict} ({c['N']}x{c['K']})", ctx | {"t": t, "verdict": r["pure"]})
+        for key, verdict in r.get("transposed_view", {}).items():
+            if verdict != "ok":
+                ck.violation(f"AWQPackedTensor.pack ({key}) of a non-contiguous (transposed view) 4-bit matrix: {verdict} ({c['N']}x{c['K']})", ctx | {"t": t})
         v2 = "p2" in r
         if v2:
             if r["u2"]["data"] != t["data"] or r["u2"]["shape"] != t["shape"]:
@@ -126,6 +129,9 @@ def main(tier):
             ck.violation(f"the optimised int4 tensor dequantizes differently from the standard one beyond float16 rounding ({r['deq_ratio']:.3g}x)", ctx)
         if not r["awq_data_is_v2"] or r["awq_dtype"] != "torch.float16":
             ck.violation("the optimised tensor does not hold the v2 packing of the ungrouped codes (or is not float16)", ctx)
+        uf = r.get("unflatten", {})
+        if "exn" in uf or uf.get("cls") != "AWQBitsTensor" or not uf.get("deq_equal"):
+            ck.violation("an optimised int4 tensor rebuilt from its flattened form (__tensor_flatten__ / __tensor_unflatten__) is not the same optimised tensor: " + str(uf)[:160], ctx)
         sv = r.get("saved", {})
         if "exn" in sv or sv.get("payload_dtype") != "torch.uint8" or not sv.get("standard_meta") or not sv.get("scale_equal") or not sv.get("all_plain"):
             ck.violation("serializing an optimised int4 tensor (save_to_state_dict) does not store the standard uint8 packing with the original scales: " + str({k: sv.get(k) for k in ("payload_dtype", "standard_meta", "scale_equal", "exn")}), ctx)
